@@ -429,3 +429,6 @@ def run(S):
     rule_drain(S)
     rule_destroy(S)
     rule_root(S)
+    # mechanisms this property rests on (checks/shared.py)
+    from checks import shared
+    shared.reclamation(S)
